@@ -437,7 +437,8 @@ GARBAGE = ["", " ", "\t\n", "abc", "1.5", "1e3", "nan", "inf", "-inf", "NaN", "I
            "+0", "007", "\x001", "1\x00", "1\x002", "None", "True", "b'5'", "5;", "5,", "5 5", "5\t5",
            "\x1c5\x1f", "5\x1c", "\x1c", "\x855", "\xa05\xa0", "　5 ", "5​", "﻿5",
            "5\x7f", "é", "😀", " ", "1 2", "⁵", "²", "½", "Ⅷ", "৪", "1.", ".5", "1e", "e1",
-           "9" * 5 + "x", "9" * 4301 + "x", "x" + "9" * 4301, "120, 60", "120;q=1"]
+           "9" * 5 + "x", "9" * 4301 + "x", "9" * 4301 + "\x00", "9" * 4301 + "\x00x", "9" * 4301 + " \x00",
+           "9" * 4301 + " x", "9" * 4301 + "_", "_" + "9" * 4301, "9" * 4300 + "__1", "12\x00", "12 \x00", "\x0012", "x" + "9" * 4301, "120, 60", "120;q=1"]
 
 
 def rand_ws(rng, allow_uni=True):
@@ -839,6 +840,7 @@ class Runner:
         self.distinct = set()
         self.nontrivial = set()
         self.samples = []
+        self._sampled = set()
 
     # ---- python side ----------------------------------------------------------------------
     def py_call(self, fn, *args):
@@ -847,9 +849,9 @@ class Runner:
         except BaseException as e:  # noqa: BLE001 — anything escaping is the point
             return ("raised", e)
 
-    def add_failure(self, kind, sig, detail, replay):
+    def add_failure(self, kind, sig, detail, replay, case=None):
         self.failures.append({"property": "C20", "kind": kind, "sig": sig, "detail": detail[:1500],
-                              "replay": replay[:6000]})
+                              "replay": replay[:6000], "_case": case})
 
     # ---- case builders ----------------------------------------------------------------------
     def parse_case(self, s: str, now: datetime, origin: str):
@@ -939,18 +941,20 @@ class Runner:
             self.evaluations += 1
             self.dist["origin:" + origin] += 1
             desc = f"_parse_retry_after({s[:200]!r}{'…' if len(s) > 200 else ''}) [len {len(s)}] now={now.isoformat()}"
+            case = ("parse", s, now)
             if res[0] == "raised":
                 e = res[1]
                 where = "date-path" if not self._int_ok(s) else "int-path"
                 self.add_failure("violation", f"C20/{where}/{type(e).__name__}",
-                                 f"{desc} raised {type(e).__name__}: {e}", replay + f"\npython: raised {e!r}")
+                                 f"{desc} raised {type(e).__name__}: {e}", replay + f"\npython: raised {e!r}", case)
                 return
             prob = hint_problem(res[1])
             if prob:
-                self.add_failure("violation", "C20/parse/bad-hint", f"{desc}: {prob}", replay)
+                self.add_failure("violation", "C20/parse/bad-hint", f"{desc}: {prob}",
+                                 replay + f"\npython: returned {res[1]!r}", case)
                 return
             if answers and answers[-1] != "ok":
-                self.add_failure("violation", "C20/parse/monitor", f"{desc}: Lean monitor says {answers[-1]}", replay)
+                self.add_failure("violation", "C20/parse/monitor", f"{desc}: Lean monitor says {answers[-1]}", replay, case)
                 return
             if not inm:
                 self.out_of_model += 1
@@ -961,29 +965,33 @@ class Runner:
             branch = body.split(" ")[1]
             self.note(lines[0], branch, branch not in ("empty",))
             self._count_boundaries(s, branch)
+            self._count_date(s, now, branch)
             if rawtok != (hx(s.strip()) or ""):
-                self.add_failure("divergence", "C20/strip", f"{desc}: model strip {rawtok} != python {hx(s.strip())}", replay)
+                self.add_failure("divergence", "C20/strip", f"{desc}: model strip {rawtok} != python {hx(s.strip())}", replay, case)
                 return
             mm = compare_res(body, res[1])
             if mm:
-                self.add_failure("divergence", f"C20/parse/{branch}", f"{desc}: {mm}", replay)
+                self.add_failure("divergence", f"C20/parse/{self._coarse_parse(branch)}", f"{desc}: {mm}",
+                                 replay + f"\npython: returned {res[1]!r}", case)
                 return
             want = {"value": f"value {iv[1]}" if iv[0] == "value" else None, "invalid": "invalid",
                     "toomany": "toomany"}[iv[0]]
             if ia != want:
-                self.add_failure("divergence", "C20/int", f"int({s[:100]!r}) [len {len(s)}]: model {ia[:80]}, python {str(want)[:80]}", replay)
-            if len(self.samples) < 6 and branch not in ("empty", "blank") and len(s) < 60:
-                self.samples.append({"op": "parse", "value": s, "python": res[1], "model": body})
+                self.add_failure("divergence", "C20/int", f"int({s[:100]!r}) [len {len(s)}]: model {ia[:80]}, python {str(want)[:80]}", replay, case)
+            if branch not in self._sampled and len(s) < 60 and len(self.samples) < 14:
+                self._sampled.add(branch)
+                self.samples.append({"op": "parse", "value": s, "now": now.isoformat(), "python": res[1], "model": body})
             return
         if kind in ("coerce", "classify"):
             desc_d, now, res, inm, klass, origin = meta
             self.evaluations += 1
             self.dist["origin:" + origin] += 1
             dd = f"{kind}({self._show_desc(desc_d)}) now={now.isoformat()}"
+            case = (kind, desc_d, now)
             if res[0] == "raised":
                 e = res[1]
                 self.add_failure("violation", f"C20/{kind}/{type(e).__name__}",
-                                 f"{dd} raised {type(e).__name__}: {e}", replay + f"\npython: raised {e!r}")
+                                 f"{dd} raised {type(e).__name__}: {e}", replay + f"\npython: raised {e!r}", case)
                 return
             r = res[1]
             if kind == "classify":
@@ -1001,7 +1009,7 @@ class Runner:
                 hint = r
             prob = hint_problem(hint)
             if prob:
-                self.add_failure("violation", f"C20/{kind}/bad-hint", f"{dd}: {prob}", replay)
+                self.add_failure("violation", f"C20/{kind}/bad-hint", f"{dd}: {prob}", replay + f"\npython: returned {r!r}", case)
                 return
             if answers and answers[-1] != "ok":
                 self.add_failure("violation", f"C20/{kind}/monitor", f"{dd}: Lean monitor says {answers[-1]}", replay)
@@ -1028,10 +1036,14 @@ class Runner:
                 else:
                     mm = f"model {a!r}, python {r!r}"
             if mm:
-                self.add_failure("divergence", f"C20/{kind}/{self._coarse(branch)}", f"{dd}: {mm}", replay)
+                self.add_failure("divergence", f"C20/{kind}/{self._sig_branch(branch)}", f"{dd}: {mm}",
+                                 replay + f"\npython: returned {r!r}", case)
                 return
-            if len(self.samples) < 14 and "hdr-own:int" in branch and len(lines[0]) < 300:
-                self.samples.append({"op": kind, "request": lines[0], "python": repr(r), "model": a})
+            cb = kind + ":" + self._coarse(branch).split(":")[0]
+            if cb not in self._sampled and len(lines[0]) < 300 and len(self.samples) < 24:
+                self._sampled.add(cb)
+                self.samples.append({"op": kind, "input": self._show_desc(desc_d), "request": lines[0],
+                                     "python": repr(r), "model": a})
             return
         if kind == "lookup":
             hdesc, name, res, inm, origin = meta
@@ -1068,9 +1080,22 @@ class Runner:
             return False
 
     @staticmethod
+    def _coarse_parse(branch):
+        for tag in ("date-caught", "date-escape"):
+            if tag in branch:
+                return branch[:branch.index(tag) + len(tag)]
+        return branch
+
+    @staticmethod
     def _coarse(branch):
         # strip embedded exception names / keep the path shape
         return branch.replace("(", "[").replace(")", "]")
+
+    @staticmethod
+    def _sig_branch(branch):
+        # stable signature: the shape of the path, without embedded exception names
+        import re
+        return re.sub(r"date-(caught|escape)-\w+", r"date-\1", branch).replace("(", "[").replace(")", "]")
 
     @staticmethod
     def _direct_kind(d):
@@ -1122,37 +1147,84 @@ class Runner:
                     self.dist[f"boundary:n-FLOAT_BOUND={v - FLOAT_BOUND}"] += 1
             except ValueError:
                 pass
+
+    def _count_date(self, s, now, branch):
         if "date-aware" in branch or "date-naive" in branch:
-            self.dist["boundary:date-" + ("clamped" if False else "parsed")] += 0
+            try:
+                p = parsedate_to_datetime(s.strip())
+                if p.tzinfo is None:
+                    p = p.replace(tzinfo=UTC)
+                d = (p - now) // US
+                self.dist["boundary:date-" + ("equals-now" if d == 0 else "past(clamped)" if d < 0 else
+                                              "future<=1s" if d <= 10 ** 6 else "future")] += 1
+            except Exception:  # noqa: BLE001
+                pass
 
     # ---- shrinking ----------------------------------------------------------------------------
-    def shrink_parse(self, s, now, sig):
-        """greedy chunk deletion while the same signature keeps failing (bounded)"""
-        budget = 120
+    def _refails(self, case, sig):
+        sub = Runner(self.tier, self.seed)
+        sub.holder = self.holder
+        kind = case[0]
+        if kind == "parse":
+            sub.parse_case(case[1], case[2], "shrink")
+        else:
+            sub.exc_case(dict(case[1]), case[2], kind, "shrink")
+        sub.flush()
+        hits = [f for f in sub.failures if f["sig"] == sig]
+        return hits[0] if hits else None
 
-        def fails(t):
-            sub = Runner(self.tier, self.seed)
-            sub.holder = self.holder
-            sub.parse_case(t, now, "shrink")
-            sub.flush()
-            return any(f["sig"] == sig for f in sub.failures), sub.failures
+    @staticmethod
+    def _smaller_descs(d):
+        """candidate simplifications of an exception description"""
+        out = []
+        if d.get("direct", "ABSENT") != "ABSENT":
+            out.append({**d, "direct": "ABSENT"})
+        if d.get("response", "absent") != "absent":
+            out.append({**d, "response": "absent"})
+        if d.get("headers", "ABSENT") != "ABSENT":
+            out.append({**d, "headers": "ABSENT"})
+        for key in ("headers", "response"):
+            h = d.get(key)
+            if isinstance(h, tuple) and len(h) > 1 and isinstance(h[1], list):
+                for i in range(len(h[1])):
+                    out.append({**d, key: (h[0], h[1][:i] + h[1][i + 1:], *h[2:])})
+        return out
 
-        best, best_f = s, None
-        chunk = max(1, len(s) // 2)
-        while chunk >= 1 and budget > 0:
-            i = 0
-            progressed = False
-            while i < len(best) and budget > 0:
-                cand = best[:i] + best[i + chunk:]
-                budget -= 1
-                ok, fl = fails(cand)
-                if ok:
-                    best, best_f, progressed = cand, fl, True
-                else:
-                    i += chunk
-            if not progressed:
-                chunk //= 2
-        return best, best_f
+    def shrink(self, failure):
+        """greedy: shorter strings (chunk deletion) / fewer entries, keeping the same signature (bounded)"""
+        case, sig = failure.get("_case"), failure["sig"]
+        if case is None:
+            return failure
+        best, budget = failure, 150
+        if case[0] == "parse":
+            s, now = case[1], case[2]
+            chunk = max(1, len(s) // 2)
+            while chunk >= 1 and budget > 0:
+                i, progressed = 0, False
+                while i < len(s) and budget > 0:
+                    cand = s[:i] + s[i + chunk:]
+                    budget -= 1
+                    f = self._refails(("parse", cand, now), sig)
+                    if f is not None:
+                        s, best, progressed = cand, f, True
+                    else:
+                        i += chunk
+                if not progressed:
+                    chunk //= 2
+        else:
+            kind, d, now = case
+            progressed = True
+            while progressed and budget > 0:
+                progressed = False
+                for cand in self._smaller_descs(d):
+                    budget -= 1
+                    f = self._refails((kind, cand, now), sig)
+                    if f is not None:
+                        d, best, progressed = cand, f, True
+                        break
+        if best is not failure:
+            best["detail"] = best["detail"] + "  [shrunk]"
+        return best
 
     # ---- main ---------------------------------------------------------------------------------
     def run(self):
@@ -1198,15 +1270,14 @@ class Runner:
                 name = self.rng.choice(["Retry-After", "Retry-After", "retry-after", "RETRY-AFTER", "Date", ""])
                 self.lookup_case(gen_hdesc(self.rng, now), name, "random")
             self.flush()
-            # shrink string failures
-            shrunk = []
-            seen = set()
+            # one failure per signature, shrunk
+            first = {}
             for f in self.failures:
-                if f["sig"] in seen:
-                    continue
-                seen.add(f["sig"])
-                shrunk.append(f)
-            self.failures = shrunk[:40]
+                first.setdefault(f["sig"], f)
+            self.dist["failures-before-dedup"] = len(self.failures)
+            self.failures = [self.shrink(f) for f in list(first.values())[:25]]
+            for f in self.failures:
+                f.pop("_case", None)
         finally:
             H.datetime = saved
         for k, v in self.oracle_stats.items():
@@ -1244,7 +1315,6 @@ def lower_table_check() -> bool:
 def run(tier: str, seed: int) -> dict:
     r = Runner(tier, seed)
     res = r.run()
-    # shrink parse violations/divergences (first of each signature)
     if not lower_table_check():
         res["failures"].append({"property": "C20", "kind": "divergence", "sig": "C20/unicode-tables",
                                 "detail": "str.isspace table or the lower() claim of the model no longer holds on this Python",
